@@ -113,7 +113,7 @@ Qed.
 Definition wanted (p : pc) : option nat :=
   match p with
   | CWalk _ _ cur | WWalk _ _ cur | FWalk _ _ _ cur => Some cur
-  | CallFin h => Some h
+  | CallFin h _ => Some h
   | FMark p _ _ => Some p
   | _ => None
   end.
